@@ -162,3 +162,36 @@ def mon_c05_published(world, kind):
             world.flag('published-identity-duplicate', 'Master.' + kind,
                        {'group': g, 'identity': ident,
                         'apps': [world.tmpl[x] for x in apps]})
+
+
+def mon_c01_zk(world, kind):
+    """C01 at master level, from the stored tree alone: per server the summed
+    demand (manifests in /scheduled) of the instances recorded under
+    /placement/<server> fits the capacity declared in /servers/<server>, and
+    no instance is recorded under two servers."""
+    from treadmill.scheduler import loader
+    tree = world.tree
+    dump = placement_dump(world)
+    per_server = {}
+    where = {}
+    for (s, a) in dump:
+        where.setdefault(a, []).append(s)
+        node = tree.find(z.path.scheduled(a))
+        if node is None or not node.data:
+            continue
+        manifest = json.loads(node.data.decode())
+        per_server.setdefault(s, []).append(loader.resources(manifest))
+    for a, servers in where.items():
+        if len(servers) > 1:
+            world.flag('recorded-under-two-servers', 'Master.' + kind,
+                       {'app': world.tmpl[a], 'servers': sorted(servers)})
+    for s, demands in per_server.items():
+        rec = tree.find(z.path.server(s))
+        if rec is None or not rec.data:
+            continue
+        cap = loader.resources(json.loads(rec.data.decode()))
+        tot = [sum(d[i] for d in demands) for i in range(3)]
+        world.stats['c01_zk_server_checks'] += 1
+        if any(t > c for t, c in zip(tot, cap)):
+            world.flag('records-exceed-declared-capacity', 'Master.' + kind,
+                       {'server': s, 'sum': tot, 'declared': cap})
